@@ -23,9 +23,13 @@ LexOK(t, toks) ==
     /\ Len(t.toks) = Len(toks)
     /\ \A i \in 1..Len(toks) : (toks[i].k = "number" \/ t.toks[i].k = "number") => t.toks[i] = toks[i]
 
+IsSpaceTok(tk) == tk.k = "general" /\ tk.v = <<32>>
+
 Verdict(t) ==
-    LET toks == Lex(t.a)
-    IN IF "toks" \in DOMAIN t /\ ~LexOK(t, toks) THEN "violation:split"
+    LET all == IF "vflag" \in DOMAIN t /\ t.vflag THEN LexV(t.a) ELSE Lex(t.a)
+        \* in a text that is run, spaces only separate the literals
+        toks == IF "lexonly" \in DOMAIN t /\ t.lexonly THEN all ELSE SelectSeq(all, LAMBDA tk : ~IsSpaceTok(tk))
+    IN IF "toks" \in DOMAIN t /\ ~LexOK(t, all) THEN "violation:split"
        ELSE IF "lexonly" \in DOMAIN t /\ t.lexonly
        THEN (IF \E i \in 1..Len(toks) : toks[i].k = "number" THEN "ok" ELSE "skip:no-number")
        ELSE IF \E i \in 1..Len(toks) : toks[i].k # "number" \/ ~IsPlainNumber(toks[i].v)
